@@ -31,6 +31,11 @@ tvars == <<vars, l, bad, stats, tainted>>
 
 Tag(c, t) == IF c THEN <<>> ELSE <<t>>
 
+(* failed judgements are reported at most 20 times per signature (tag, event): the state stays small *)
+Fresh(ev, j) == LET Occ(t) == Cardinality({i \in 1..Len(bad) : bad[i][2] = ev /\ bad[i][3] = t})
+                    keep == SelectSeq(j, LAMBDA t : Occ(t) < 20)
+                IN  [i \in 1..Len(keep) |-> <<l, ev, keep[i]>>]
+
 AcctFields == <<"ex", "empty", "nonce", "code", "csize", "chash", "st", "sui", "bal">>
 GlobFields == <<"refund", "logs", "logIdx", "accA", "accS", "tr">>
 AllFields  == AcctFields \o GlobFields
@@ -122,7 +127,7 @@ TraceNext ==
                        [] OTHER -> snaps
          /\ nextId' = IF e.event = "SNAP" THEN e.id + 1 ELSE IF e.event = "Reset" THEN 0 ELSE nextId
          /\ UNCHANGED <<hist, surv>>
-         /\ bad' = bad \o [i \in 1..Len(j) |-> <<l, e.event, j[i]>>]
+         /\ bad' = bad \o Fresh(e.event, j)
          /\ stats' = [f \in 1..(NF + 2) |->
                         IF f <= NF THEN stats[f] + r[f]
                         ELSE IF f = NF + 1 THEN stats[f] + (IF e.event = "REV" THEN 1 ELSE 0)
